@@ -4,6 +4,15 @@ follows for every admissible ns without bound on len(ns) or max(ns)."""
 from pvc.api import *
 from contracts.polyspec import *
 
+
+def _jacobi_ab(rng):
+    """Jacobi weight parameters: random, or one of the classical special pairs (Legendre, the four Chebyshev kinds, Gegenbauer,
+    pairs with alpha + beta = 0 or -1, where the general recurrence coefficients at n = 0 are 0/0 and the code has a special case)"""
+    special = [(0.0, 0.0), (-0.5, -0.5), (0.5, 0.5), (-0.5, 0.5), (0.5, -0.5), (0.3, -0.3), (-0.25, -0.75), (1.0, 1.0), (2.0, -0.5)]
+    if rng.random() < 0.4:
+        return special[int(rng.integers(0, len(special)))]
+    return float(rng.uniform(-0.9, 3)), float(rng.uniform(-0.9, 3))
+
 XK = ['scalar', '1d', '2d']      # 'scalar' = 0-D array
 
 
@@ -294,11 +303,11 @@ def bounded_seq(which):
             seq = get('prysm.polynomials.qpoly.Qbfs_seq')(ns, np.abs(x))
             one = [get('prysm.polynomials.qpoly.Qbfs')(n, np.abs(x)) for n in ns]
         elif which == 'jacobi_seq-arrays':
-            a, b = float(rng.uniform(-0.9, 3)), float(rng.uniform(-0.9, 3))
+            a, b = _jacobi_ab(rng)
             seq = get('prysm.polynomials.jacobi.jacobi_seq')(ns, a, b, x)
             one = [get('prysm.polynomials.jacobi.jacobi')(n, a, b, x) for n in ns]
         elif which == 'jacobi_der_seq':
-            a, b = float(rng.uniform(-0.9, 3)), float(rng.uniform(-0.9, 3))
+            a, b = _jacobi_ab(rng)
             seq = get('prysm.polynomials.jacobi.jacobi_der_seq')(ns, a, b, x)
             one = [get('prysm.polynomials.jacobi.jacobi_der')(n, a, b, x) for n in ns]
         else:
